@@ -53,14 +53,14 @@ func objPrimitiveEffect(in ssa.Instruction) (string, bool) {
 // status-only response from an error. Effects reached *only* through them are not
 // object data effects. (Reason per entry: reads req.MetaHeader and the error, sets MetaHeader.Status.)
 var objStatusWrappers = map[string]bool{
-	objSrv + ".sendStatusPutResponse":      true,
-	objSrv + ".sendStatusGetResponse":      true,
-	objSrv + ".sendStatusRangeResponse":    true,
-	objSrv + ".makeStatusDeleteResponse":   true,
-	objSrv + ".makeStatusHeadResponse":     true,
-	objSrv + ".signSearchResponse":         true, // called with a nil body on rejection paths; body non-nil only after processSearchRequest
-	objSrv + ".signDeleteResponse":         true,
-	objSrv + ".signHeadResponse":           true,
+	objSrv + ".sendStatusPutResponse":       true,
+	objSrv + ".sendStatusGetResponse":       true,
+	objSrv + ".sendStatusRangeResponse":     true,
+	objSrv + ".makeStatusDeleteResponse":    true,
+	objSrv + ".makeStatusHeadResponse":      true,
+	objSrv + ".signSearchResponse":          true, // called with a nil body on rejection paths; body non-nil only after processSearchRequest
+	objSrv + ".signDeleteResponse":          true,
+	objSrv + ".signHeadResponse":            true,
 	objSrv + ".makeStatusReplicateResponse": true,
 }
 
